@@ -115,7 +115,10 @@ func (app *App) handleTs(w http.ResponseWriter, r *http.Request) {
 
 			n, err := frameBuffer.b.Read(rawFrame)
 
-			frame := rawFrame[:n]
+			// copy: rawFrame is overwritten by the next flush while
+			// receivers may still be holding this message
+			frame := make([]byte, n)
+			copy(frame, rawFrame[:n])
 
 			frameBuffer.b.Reset()
 
